@@ -61,7 +61,15 @@ func cmdC11(args []string) error {
 		if round%3 == 0 {
 			lib["renew_lifetime"] = "10"
 		}
-		cfg, err := config.NewFromString(simConf(realm, map[string][]string{realm: addrs}, lib, map[string]string{".c11.test": realm}))
+		conf := simConf(realm, map[string][]string{realm: addrs}, lib, map[string]string{".c11.test": realm})
+		// password-change servers (never contacted: only their resolution is exercised)
+		kps := []string{"127.0.0.1:4641", "127.0.0.1:4642", "127.0.0.1:4643", "127.0.0.1:4644"}[:2+round%3]
+		kpl := ""
+		for _, a := range kps {
+			kpl += "    kpasswd_server = " + a + "\n"
+		}
+		conf = strings.Replace(conf, "  }\n", kpl+"  }\n", 1)
+		cfg, err := config.NewFromString(conf)
 		if err != nil {
 			return err
 		}
@@ -102,7 +110,7 @@ func cmdC11(args []string) error {
 						continue
 					}
 					switch c := rr.Intn(10); {
-					case c < 6:
+					case c < 5:
 						spn := spns[rr.Intn(len(spns))]
 						var tkt messages.Ticket
 						var key types.EncryptionKey
@@ -116,6 +124,17 @@ func cmdC11(args []string) error {
 						if x.Ok && len(tkt.EncPart.Cipher) >= 8 {
 							x.Tkt, x.Key = hx(tkt.EncPart.Cipher[len(tkt.EncPart.Cipher)-8:]), hx(key.KeyValue)
 						}
+						add(x)
+					case c < 7 && rr.Intn(2) == 0:
+						x := res{Op: "kpasswd"}
+						x.Panic = catch(func() {
+							cnt, m, e := cfg.GetKpasswdServers(realm, rr.Intn(2) == 0)
+							x.Ok, x.Count = e == nil, cnt
+							for q := 1; q <= len(m); q++ {
+								x.Servers = append(x.Servers, m[q])
+							}
+						})
+						sort.Strings(x.Servers)
 						add(x)
 					case c < 8:
 						x := res{Op: "kdcs"}
@@ -176,7 +195,7 @@ func cmdC11(args []string) error {
 				results[i].Servers = []string{}
 			}
 		}
-		tw.emit(map[string]interface{}{"round": round, "g": g, "nkdc": nk, "long": long, "destroyMid": destroyMid, "configured": addrs, "results": results, "issued": issued,
+		tw.emit(map[string]interface{}{"round": round, "g": g, "nkdc": nk, "long": long, "destroyMid": destroyMid, "configured": addrs, "kpConfigured": kps, "results": results, "issued": issued,
 			"deadlock": deadlock, "configUnchanged": cfgBefore == cfgAfter})
 		mu.Unlock()
 		if deadlock {
